@@ -120,7 +120,8 @@ Section Closure.
         destruct (fid_keyed _ _ _ Fn NK) as [E|E].
         * rewrite E in Hs. destruct (HI _ Hin) as [A|A]; [right; exists k; split; assumption|left; apply A; exact Hs].
         * rewrite E in Hs. simpl in Hs. discriminate.
-      + destruct (kids enums n) as [ks| |]; simpl in H; try discriminate.
+      + destruct (nameable pr n); simpl in H; try discriminate.
+        destruct (kids enums n) as [ks| |]; simpl in H; try discriminate.
         destruct (gen_list (generate pr nodes enums F f) ks (k :: cache)) as [[c2 dsr]| |] eqn:GL; simpl in H; try discriminate.
         destruct (fd t) as [id| |] eqn:Fid; simpl in H; try discriminate.
         destruct (mapM fd ks) as [calls| |] eqn:MC; simpl in H; try discriminate.
@@ -134,7 +135,8 @@ Section Closure.
         destruct (finish _ pending _ out dsr {| rd_id := id; rd_calls := calls |} ks Hp I2 P2 R2 MC) as [A B].
         split; [exact A|]. split; [|exact B].
         intros s Hs. inversion Hs; subst. left. rewrite !ids_app. apply in_or_app. right. apply in_or_app. right. left. reflexivity.
-    - destruct (kids enums n) as [ks| |]; simpl in H; try discriminate.
+    - destruct (nameable pr n); simpl in H; try discriminate.
+      destruct (kids enums n) as [ks| |]; simpl in H; try discriminate.
       destruct (gen_list (generate pr nodes enums F f) ks cache) as [[c2 dsr]| |] eqn:GL; simpl in H; try discriminate.
       destruct (fd t) as [id| |] eqn:Fid; simpl in H; try discriminate.
       destruct (mapM fd ks) as [calls| |] eqn:MC; simpl in H; try discriminate.
